@@ -1,0 +1,121 @@
+//go:build verif
+
+package kbin
+
+// Verification contracts (comments only). This file is compiled only with -tags verif and
+// contains no code; the directives are read by /verif/govc.
+
+// ---- specification functions (written from the Kafka protocol guide, not from the code) ----
+
+//@ spec zz32(i int32) uint32 = (uint32(i) << 1) ^ uint32(i >> 31)
+//@ spec unzz32(x uint32) int32 = int32(x >> 1) ^ -int32(x & 1)
+//@ spec zz64(i int64) uint64 = (uint64(i) << 1) ^ uint64(i >> 63)
+//@ spec unzz64(x uint64) int64 = int64(x >> 1) ^ -int64(x & 1)
+//@ spec uvlen32(u uint32) int = ite(u < 1<<7, 1, ite(u < 1<<14, 2, ite(u < 1<<21, 3, ite(u < 1<<28, 4, 5))))
+//@ spec uvlen64(u uint64) int = ite(u < 1<<7, 1, ite(u < 1<<14, 2, ite(u < 1<<21, 3, ite(u < 1<<28, 4, ite(u < 1<<35, 5,
+//@      ite(u < 1<<42, 6, ite(u < 1<<49, 7, ite(u < 1<<56, 8, ite(u < 1<<63, 9, 10)))))))))
+//@ spec uvbyte32(u uint32, k int) byte = byte((u >> uint(7*k)) & 0x7f) | ite(k < uvlen32(u)-1, byte(0x80), byte(0))
+//@ spec uvbyte64(u uint64, k int) byte = byte((u >> uint(7*k)) & 0x7f) | ite(k < uvlen64(u)-1, byte(0x80), byte(0))
+
+// Decoder specification: number of bytes consumed by a base-128 varint of at most 5 (10) bytes,
+// 0 when the input is too short, -5 (-10) when the last byte overflows 32 (64) bits.
+//@ spec uvN(in []byte) int = ite(len(in) < 1, 0, ite(in[0] < 0x80, 1, ite(len(in) < 2, 0, ite(in[1] < 0x80, 2,
+//@      ite(len(in) < 3, 0, ite(in[2] < 0x80, 3, ite(len(in) < 4, 0, ite(in[3] < 0x80, 4,
+//@      ite(len(in) < 5, 0, ite(in[4] <= 0x0f, 5, -5))))))))))
+//@ spec uvX(in []byte) uint32 = ite(uvN(in) < 1, 0, uint32(in[0]&0x7f)
+//@      | ite(uvN(in) < 2, 0, uint32(in[1]&0x7f) << 7) | ite(uvN(in) < 3, 0, uint32(in[2]&0x7f) << 14)
+//@      | ite(uvN(in) < 4, 0, uint32(in[3]&0x7f) << 21) | ite(uvN(in) < 5, 0, uint32(in[4]) << 28))
+//@ spec uvN64(in []byte) int = ite(len(in) < 1, 0, ite(in[0] < 0x80, 1, ite(len(in) < 2, 0, ite(in[1] < 0x80, 2,
+//@      ite(len(in) < 3, 0, ite(in[2] < 0x80, 3, ite(len(in) < 4, 0, ite(in[3] < 0x80, 4,
+//@      ite(len(in) < 5, 0, ite(in[4] < 0x80, 5, ite(len(in) < 6, 0, ite(in[5] < 0x80, 6,
+//@      ite(len(in) < 7, 0, ite(in[6] < 0x80, 7, ite(len(in) < 8, 0, ite(in[7] < 0x80, 8,
+//@      ite(len(in) < 9, 0, ite(in[8] < 0x80, 9, ite(len(in) < 10, 0, ite(in[9] <= 1, 10, -10))))))))))))))))))))
+//@ spec uvX64(in []byte) uint64 = ite(uvN64(in) < 1, 0, uint64(in[0]&0x7f)
+//@      | ite(uvN64(in) < 2, 0, uint64(in[1]&0x7f) << 7) | ite(uvN64(in) < 3, 0, uint64(in[2]&0x7f) << 14)
+//@      | ite(uvN64(in) < 4, 0, uint64(in[3]&0x7f) << 21) | ite(uvN64(in) < 5, 0, uint64(in[4]&0x7f) << 28)
+//@      | ite(uvN64(in) < 6, 0, uint64(in[5]&0x7f) << 35) | ite(uvN64(in) < 7, 0, uint64(in[6]&0x7f) << 42)
+//@      | ite(uvN64(in) < 8, 0, uint64(in[7]&0x7f) << 49) | ite(uvN64(in) < 9, 0, uint64(in[8]&0x7f) << 56)
+//@      | ite(uvN64(in) < 10, 0, uint64(in[9]) << 63))
+
+// ---- length functions ----
+
+//@ func UvarintLen(u uint32) (n int)
+//@   mode bv
+//@   prop C17
+//@   nopanic
+//@   pure
+//@   ensures n == uvlen32(u)
+
+//@ func VarintLen(i int32) (n int)
+//@   mode bv
+//@   prop C17
+//@   nopanic
+//@   pure
+//@   ensures n == uvlen32(zz32(i))
+
+//@ func uvarlongLen(u uint64) (n int)
+//@   mode bv
+//@   prop C17
+//@   nopanic
+//@   pure
+//@   ensures n == uvlen64(u)
+
+//@ func VarlongLen(i int64) (n int)
+//@   mode bv
+//@   prop C17
+//@   nopanic
+//@   pure
+//@   ensures n == uvlen64(zz64(i))
+
+// ---- decoders ----
+
+//@ func Uvarint(in []byte) (x uint32, n int)
+//@   mode bv
+//@   prop C17 C16
+//@   nopanic
+//@   pure
+//@   ensures n == uvN(in)
+//@   ensures x == uvX(in)
+
+//@ func Varint(in []byte) (v int32, n int)
+//@   mode bv
+//@   prop C17 C16
+//@   nopanic
+//@   pure
+//@   ensures n == uvN(in)
+//@   ensures v == unzz32(uvX(in))
+
+//@ func uvarlong(in []byte) (x uint64, n int)
+//@   mode bv
+//@   prop C17 C16
+//@   nopanic
+//@   pure
+//@   ensures n == uvN64(in)
+//@   ensures x == uvX64(in)
+
+//@ func Varlong(in []byte) (v int64, n int)
+//@   mode bv
+//@   prop C17 C16
+//@   nopanic
+//@   pure
+//@   ensures n == uvN64(in)
+//@   ensures v == unzz64(uvX64(in))
+
+// ---- lemmas over the specification: decode(encode(x)) == x ----
+
+//@ lemma zigzag32_inverse: forall i int32 :: unzz32(zz32(i)) == i
+//@   mode bv
+//@   prop C17
+//@ lemma zigzag64_inverse: forall i int64 :: unzz64(zz64(i)) == i
+//@   mode bv
+//@   prop C17
+//@ lemma uvarint_roundtrip: forall in []byte :: forall u uint32 ::
+//@      (len(in) >= uvlen32(u) && (forall k in 0..5 :: k < uvlen32(u) ==> in[k] == uvbyte32(u, k)))
+//@      ==> (uvN(in) == uvlen32(u) && uvX(in) == u)
+//@   mode bv
+//@   prop C17
+//@ lemma uvarlong_roundtrip: forall in []byte :: forall u uint64 ::
+//@      (len(in) >= uvlen64(u) && (forall k in 0..10 :: k < uvlen64(u) ==> in[k] == uvbyte64(u, k)))
+//@      ==> (uvN64(in) == uvlen64(u) && uvX64(in) == u)
+//@   mode bv
+//@   prop C17
